@@ -3,6 +3,7 @@ pub mod engine;
 pub mod gitmodel;
 pub mod patgen;
 pub mod jobdrive;
+pub mod mockwatch;
 pub mod jobgen;
 pub mod jobmodel;
 pub mod props;
